@@ -40,10 +40,19 @@ def gen_methods(rng, n):
     return ms
 
 
-def render_idl(methods, chain=False):
+def mark_optional(rng, methods):
+    """-> {name: "impl" | "absent"} for a third of the methods: optional ones, half of them left out by
+    all three implementations (every pairing must then answer with the same refusal status)"""
+    return {n: rng.choice(["impl", "absent"]) for n, ps in methods if rng.random() < 0.33}
+
+
+def render_idl(methods, chain=False, opt=None):
+    opt = opt or {}
     def block(name, base, part):
         out = ["interface %s%s {" % (name, " : " + base if base else "")]
         for n, ps in part:
+            if n in opt:
+                out.append("  #[optional]")
             out.append("  method %s(%s);" % (n, ", ".join("%s %s%s %s" % (d, t, sh or "", pn) for d, t, sh, pn in ps)))
         out.append("};")
         return out
@@ -71,7 +80,8 @@ def kind(t, sh):
 
 
 # ---------------------------------------------------------------- C side
-def c_side(methods):
+def c_side(methods, opt=None):
+    opt = opt or {}
     A = ['#include <stdio.h>\n#include <stdlib.h>\n#include <string.h>\n#include "cobj.h"\n#include "dpat.h"\n#include "l2.h"\n#include "l2_invoke.h"\n',
          "typedef struct { int refs; } CImpl;\n"
          "static int32_t cimpl_retain(CImpl *me) { me->refs++; return Object_OK; }\n"
@@ -98,8 +108,11 @@ def c_side(methods):
                     sig += ["%s *%s_ptr" % (ct, pn), "size_t %s_len" % pn, "size_t *%s_lenout" % pn]
                     log.append("  L_len(%d, %s_len);" % (i, pn))
                     post.append("  { size_t n = d_out_want(%d, %d, v); if (n > %s_len) n = %s_len; d_fill(%s_ptr, n * %d, %d, %d, v, 1); *%s_lenout = n; }" % (k, i, pn, pn, pn, es, k, i, pn))
-        A.append("static int32_t cimpl_%s(%s) {\n  (void)me; int v = sc_val(); (void)v;\n  L_begin(\"impl\", %d, v);\n%s\n  L_end();\n"
-                 "  if (sc_status()) return sc_status();\n%s\n  return Object_OK;\n}\n" % (name, ", ".join(sig), k, "\n".join(log), "\n".join(post)))
+        if opt.get(name) == "absent":
+            continue
+        # (the skeleton declares optional methods weak: their definitions have external linkage)
+        A.append("%sint32_t cimpl_%s(%s) {\n  (void)me; int v = sc_val(); (void)v;\n  L_begin(\"impl\", %d, v);\n%s\n  L_end();\n"
+                 "  if (sc_status()) return sc_status();\n%s\n  return Object_OK;\n}\n" % ("" if name in opt else "static ", name, ", ".join(sig), k, "\n".join(log), "\n".join(post)))
     A.append("static IL2_DEFINE_INVOKE(c_skel_invoke, cimpl_, CImpl *)\n")
     A.append("Object c_impl_new(void) { CImpl *me = malloc(sizeof *me); me->refs = 1; impl_born(); return (Object){c_skel_invoke, me}; }\n")
     for k, (name, ps) in enumerate(methods):
@@ -152,7 +165,8 @@ DRIVE = """  for (int st = 0; st < 2; st++)
 
 
 # ---------------------------------------------------------------- C++ side
-def cpp_side(methods):
+def cpp_side(methods, opt=None):
+    opt = opt or {}
     A = ['#include <cstdio>\n#include <cstdlib>\n#include <cstring>\n#include <stdint.h>\n#include "cobj.h"\n#include "dpat.h"\n#include "proxy_base.hpp"\n#include "impl_base.hpp"\n#include "l2.hpp"\n#include "l2_invoke.hpp"\n',
          "class CppImpl : public IL2ImplBase {\n public:\n  CppImpl() { impl_born(); }\n  virtual ~CppImpl() { impl_died(); }"]
     for k, (name, ps) in enumerate(methods):
@@ -177,6 +191,8 @@ def cpp_side(methods):
                     sig += ["%s *%s_ptr" % (ct, pn), "size_t %s_len" % pn, "size_t *%s_lenout" % pn]
                     log.append("    L_len(%d, %s_len);" % (i, pn))
                     post.append("    { size_t n = d_out_want(%d, %d, v); if (n > %s_len) n = %s_len; d_fill(%s_ptr, n * %d, %d, %d, v, 1); *%s_lenout = n; }" % (k, i, pn, pn, pn, es, k, i, pn))
+        if opt.get(name) == "absent":
+            continue
         A.append("  int32_t %s(%s) override {\n    int v = sc_val(); (void)v;\n    L_begin(\"impl\", %d, v);\n%s\n    L_end();\n"
                  "    if (sc_status()) return sc_status();\n%s\n    return Object_OK;\n  }" % (name, ", ".join(sig), k, "\n".join(log), "\n".join(post)))
     A.append("};\n")
@@ -266,7 +282,8 @@ def rty(t):
     return "u8" if t == "buffer" else (PRIMS[t][1] if t in PRIMS else t)
 
 
-def rust_side(methods, tests, out, nval, chain=False):
+def rust_side(methods, tests, out, nval, chain=False, opt=None):
+    opt = opt or {}
     mods = "    pub mod il2 { include!(\"%s/il2.rs\"); }" % out
     if chain:
         mods += "\n    pub mod il0 { include!(\"%s/il0.rs\"); }\n    pub mod il1 { include!(\"%s/il1.rs\"); }" % (out, out)
@@ -302,6 +319,8 @@ def rust_side(methods, tests, out, nval, chain=False):
                         sig += ["%s: &mut [%s]" % (pn, rt), "%s_lenout: &mut usize" % pn]
                         log.append("        L_len(%d, %s.len());" % (i, pn))
                         pre.append("        { let mut n = d_out_want(%d, %d, v); if n > %s.len() { n = %s.len(); } d_fill(%s.as_mut_ptr() as *mut c_void, n * %d, %d, %d, v, 1); *%s_lenout = n; }" % (k, i, pn, pn, pn, es, k, i, pn))
+            if opt.get(name) == "absent":
+                continue
             ety = "interfaces::%s::Error" % trait[1:].lower()
             A.append("    fn r#%s(%s) -> Result<(%s), %s> {\n      unsafe {\n        let v = sc_val();\n        L_begin(b\"impl\\0\".as_ptr(), %d, v);\n%s\n        L_end();\n"
                      "        if sc_status() != 0 { return Err(std::mem::transmute::<i32, %s>(sc_status())); }\n%s\n        Ok((%s))\n      }\n    }"
@@ -350,20 +369,20 @@ def rust_side(methods, tests, out, nval, chain=False):
 
 
 # ---------------------------------------------------------------- build, run, compare
-def build_and_run(idlc, root, methods, chain=False, san=True):
+def build_and_run(idlc, root, methods, chain=False, san=True, opt=None):
     """-> {"stage": ..., ...}; on success "out" is the program's log"""
     import scrape, vlib, p_refcount
     TESTS, RT = p_refcount.TESTS, p_refcount.RT
     DRT = os.path.join(os.path.dirname(RT), "data")
     os.makedirs(root, exist_ok=True)
-    open(os.path.join(root, "l2.idl"), "w").write(render_idl(methods, chain))
+    open(os.path.join(root, "l2.idl"), "w").write(render_idl(methods, chain, opt))
     err = p_refcount.emit(idlc, root)
     if err:
         return {"stage": "emit", "err": err}
     nval = 4
-    open(os.path.join(root, "c_side.c"), "w").write(c_side(methods))
-    open(os.path.join(root, "cpp_side.cpp"), "w").write(cpp_side(methods))
-    open(os.path.join(root, "rust_side.rs"), "w").write(rust_side(methods, TESTS, os.path.join(root, "rs"), nval, chain))
+    open(os.path.join(root, "c_side.c"), "w").write(c_side(methods, opt))
+    open(os.path.join(root, "cpp_side.cpp"), "w").write(cpp_side(methods, opt))
+    open(os.path.join(root, "rust_side.rs"), "w").write(rust_side(methods, TESTS, os.path.join(root, "rs"), nval, chain, opt))
     inc = ["-I" + os.path.join(TESTS, "c"), "-I" + os.path.join(TESTS, "cpp"), "-I" + root, "-I" + RT, "-I" + DRT]
     sanf = ["-fsanitize=address,undefined", "-fno-sanitize-recover=undefined"] if san else []
     warn = ["-Wall", "-Wextra", "-Werror", "-Wno-unused-parameter", "-Wno-unused-function", "-Wno-missing-field-initializers", "-Wno-unused-variable"]
